@@ -44,7 +44,7 @@ Definition is_isclosed (o : out) : bool := match snd o with IsClosed => true | _
 (* would the driver deliver this event in this state?  (mirror of the guards of [step]) *)
 Definition applicable (s : cstate) (e : event) : bool :=
   match e with
-  | EHandshake | EBadHandshake => connecting s
+  | EHandshake | EBadHandshake | EConnectRaises _ => connecting s
   | EProxyOk | EProxyBad => proxy_connecting s
   | ESendFrame | EEndMessage => negb (wstate_eqb (st s) OPEN && match sst s with SGround => true | _ => false end)
   | ESendClose _ _ | ESendMessage | ESendPrepared | ESendPing | ESendPong | EBeginMessage | ETick _ => true
